@@ -1,3 +1,4 @@
+import RedoModel.Props.C07d
 import RedoModel.Props.C07c
 import RedoModel.Props.C07b
 import RedoModel.Once
